@@ -109,8 +109,15 @@ def main():
 HOOK_COMMITS = ["e7bc752"]
 ENGINES = [
  {"name": "vcheck", "path": "cmd/vcheck", "serves_properties": [], "kind_free_text": "driver: builds checks/<id> against /repo, shards rapid runs, merges evidence"},
- {"name": "wgen", "path": "internal/wgen", "serves_properties": ["C01","C03","C04","C05","C06","C07","C08","C13","C14","C15"], "kind_free_text": "generators of valid-by-construction WGSL (own AST, printer, WGSL layout)"},
- {"name": "wref", "path": "internal/wref", "serves_properties": ["C01","C03","C04","C05","C06","C13","C14","C15"], "kind_free_text": "independent WGSL reference evaluator"},
+ {"name": "wgen", "path": "internal/wgen", "serves_properties": ["C01","C02","C03","C04","C05","C06","C07","C08","C12","C13","C14","C15","C16","C17"], "kind_free_text": "generators of valid-by-construction WGSL (own AST, printer, WGSL layout): exec, full, types, constexpr, override profiles"},
+ {"name": "wref", "path": "internal/wref", "serves_properties": ["C01","C03","C04","C05","C06","C13","C14","C15","C16"], "kind_free_text": "independent WGSL reference evaluator and const-evaluator"},
+ {"name": "spv", "path": "internal/spv", "serves_properties": ["C01","C02","C06","C07","C13","C15","C17"], "kind_free_text": "SPIR-V reader, structural validator and interpreter (poison / trap semantics)"},
+ {"name": "ctext", "path": "internal/ctext", "serves_properties": ["C03","C04","C05","C06","C07","C14","C15","C16"], "kind_free_text": "front ends and interpreters for the emitted HLSL, MSL and GLSL text"},
+ {"name": "irx", "path": "internal/irx", "serves_properties": ["C09","C12","C13","C19"], "kind_free_text": "strict IR validator, typifier, IR interpreter, deep hash / diff of ir.Module"},
+ {"name": "dxbc", "path": "internal/dxbc", "serves_properties": ["C18"], "kind_free_text": "DXBC container, PSV0 / signature parts, LLVM 3.7 bitstream reader, retail hash"},
+ {"name": "meta", "path": "internal/meta", "serves_properties": ["C09","C10","C11","C16","C19"], "kind_free_text": "WGSL tokenizer, neutral and rule-breaking source edits, adversarial name pools, mgen program generator"},
+ {"name": "sandbox", "path": "internal/sandbox", "serves_properties": ["C10","C12"], "kind_free_text": "isolated worker processes with heap watchdog and time budgets"},
+ {"name": "xrun", "path": "internal/xrun", "serves_properties": ["C01","C03","C04","C05","C13","C14","C15","C16"], "kind_free_text": "compile-and-execute runners per backend, buffer comparison with padding / tolerance masks"},
 ]
 if __name__ == "__main__":
     main()
